@@ -1,4 +1,4 @@
-CONSTANT LoopTargetsSupported = TRUE
+CONSTANT LoopTargetsSupported = FALSE
 INIT InitX
 NEXT Next
 CONSTRAINT Collect
